@@ -112,28 +112,42 @@ pub fn i(s: &str) -> i128 {
     s.parse::<i128>().unwrap_or_else(|_| panic!("bad int {s}"))
 }
 
-/// Evaluate `f` over `items` on all cores, preserving order.
+/// Evaluate `f` over `items` on all cores, preserving order (dynamic scheduling in blocks of 64 items).
 pub fn par_map<T: Sync, R: Send>(items: &[T], f: impl Fn(&T) -> R + Sync) -> Vec<R> {
+    use std::sync::atomic::{AtomicUsize, Ordering};
     let n = items.len();
     let threads = std::thread::available_parallelism().map(|x| x.get()).unwrap_or(4).min(16);
     if n < 2000 || threads == 1 {
         return items.iter().map(|x| f(x)).collect();
     }
-    let chunk = (n + threads - 1) / threads;
-    let mut out: Vec<Vec<R>> = Vec::new();
+    const BLOCK: usize = 64;
+    let next = AtomicUsize::new(0);
+    let mut parts: Vec<(usize, Vec<R>)> = Vec::new();
     std::thread::scope(|s| {
-        let handles: Vec<_> = items
-            .chunks(chunk)
-            .map(|c| {
+        let handles: Vec<_> = (0..threads)
+            .map(|_| {
                 let f = &f;
-                s.spawn(move || c.iter().map(|x| f(x)).collect::<Vec<R>>())
+                let next = &next;
+                s.spawn(move || {
+                    let mut mine: Vec<(usize, Vec<R>)> = Vec::new();
+                    loop {
+                        let lo = next.fetch_add(BLOCK, Ordering::Relaxed);
+                        if lo >= n {
+                            break;
+                        }
+                        let hi = (lo + BLOCK).min(n);
+                        mine.push((lo, items[lo..hi].iter().map(|x| f(x)).collect()));
+                    }
+                    mine
+                })
             })
             .collect();
         for h in handles {
-            out.push(h.join().unwrap());
+            parts.extend(h.join().unwrap());
         }
     });
-    out.into_iter().flatten().collect()
+    parts.sort_by_key(|p| p.0);
+    parts.into_iter().flat_map(|p| p.1).collect()
 }
 
 /// Exact text of a finite double: integers in decimal, otherwise `<odd mantissa>p<exponent>`.
